@@ -57,6 +57,10 @@ def build_data(spec):
             z = 0.0 if i < max(2, n // 3) else r.choice([0.0, 1.0, -1.0, 0.5, r.gauss(0, 1)])
         elif kind == 'lattice':
             z = float(r.randint(-2, 2)) / 2
+        elif kind == 'py_int_ns':
+            # plain Python ints the size of nanosecond timestamps: each fits in 64 bits, the sum of 64+ of them does not
+            xs.append(1_600_000_000_000_000_000 + r.randint(0, 3_600_000_000_000) * 3)
+            continue
         elif kind == 'outlier_first':
             # the first item lies far from all the others (a missing-data sentinel, a boot value): algorithms that centre on the
             # first item lose digits like n**2
@@ -172,12 +176,12 @@ class C12(Check):
                    'min/max of an empty sequence with reduce=True emit None (pinned by the suite); mean of an empty sequence is outside the domain']
     ANCHORS = ['rxsci/math/sum.py', 'rxsci/math/mean.py', 'rxsci/math/min.py', 'rxsci/math/max.py', 'rxsci/math/variance.py',
                'rxsci/math/stddev.py', 'rxsci/math/formal/variance.py', 'rxsci/math/formal/stddev.py', 'rxsci/math/formal/__init__.py']
-    REQUIRED_TAGS = ['op=' + o for o in OPS] + ['plain', 'mux', 'group', 'km', 'n=0', 'n=1', 'n>=1000', 'n>1024', 'offset>=1e6', 'kind=np_int64', 'kind=np_int32', 'kind=outlier_first', 'groups-of-different-magnitudes']
+    REQUIRED_TAGS = ['op=' + o for o in OPS] + ['plain', 'mux', 'group', 'km', 'n=0', 'n=1', 'n>=1000', 'n>1024', 'offset>=1e6', 'kind=np_int64', 'kind=np_int32', 'kind=outlier_first', 'kind=py_int_ns', 'groups-of-different-magnitudes']
     REQUIRED_OBSERVED = ['values_compared', 'stream_equals_reduce_checks']
 
     def generate(self, rng, tier, shard, nshards):
-        ncases = 900 if tier == 'quick' else 10 ** 7
-        kinds = ['gauss', 'uniform', 'int', 'constant', 'alternating', 'outlier', 'small_ints', 'plateau', 'lattice', 'np_int64', 'np_int32', 'outlier_first', 'sorted_heavy']
+        ncases = 750 if tier == 'quick' else 10 ** 7
+        kinds = ['gauss', 'uniform', 'int', 'constant', 'alternating', 'outlier', 'small_ints', 'plateau', 'lattice', 'np_int64', 'np_int32', 'outlier_first', 'sorted_heavy', 'py_int_ns']
         offsets = [0.0, 1.0, -1.0, 1e3, 1e6, -1e6, 1e9]
         scales = [1e-8, 1e-3, 1.0, 1.0, 1e3, 1e8]
         ns = [0, 1, 2, 3, 10, 100, 1100, 1000, 100, 2500] if tier == 'quick' else [0, 1, 2, 3, 10, 100, 1000, 1000, 2500, 10000]
